@@ -25,7 +25,7 @@ theorem splitTail_clean {p q : Str} (hp : p.all (fun c => c ≠ '?' ∧ c ≠ '#
   have hp1 : '#' ∉ p := by intro h; have := List.all_eq_true.mp hp _ h; simp at this
   have hp2 : '?' ∉ p := by intro h; have := List.all_eq_true.mp hp _ h; simp at this
   have hq1 : '#' ∉ q := by intro h; have := List.all_eq_true.mp hq _ h; simp at this
-  unfold splitTail
+  unfold splitTail cutAt
   by_cases hqe : q.isEmpty = true
   · have : q = [] := by simpa using hqe
     subst this
